@@ -369,7 +369,10 @@ def run(ctx):
         if not cmps:
             continue
         g = veq.guard_for(n_, lambda t: mentions(t, "_schema_entry"))
-        same = any(mentions(r, "_schema_entry") for r in roots)
+        from sa.dataflow import ReachingDefs as _RD911, depends_on as _dep911
+        rd911 = _RD911(teq)
+        same = any(mentions(r, "_schema_entry") or _dep911(rd911, r, n_.ast, lambda y: isinstance(y, ast.Attribute) and y.attr == "_schema_entry")
+                   for r in roots)
         ctx.check(g is not None or same, "R9.11", teq.qualname, cmps[0], loc(teq, cmps[0]),
                   "two tags identified by the schema are also declared equal when only their *written* forms agree: after a "
                   "placeholder is plugged in, the expansion's `Age/5` still reads `Age/#`, so a Def-expand group written with "
